@@ -36,9 +36,17 @@ def _is_marker(name):
 
 def _key(v, root):
     p = Path(v.file_path)
-    try:
-        rel = str(p.resolve().relative_to(Path(root).resolve()))
-    except ValueError:
+    rootr = Path(root).resolve()
+    rel = None
+    # a relative path in a violation may be relative to the cwd or (file-placement) to the project
+    for cand in ([p] if p.is_absolute() else [Path.cwd() / p, rootr / p]):
+        try:
+            if cand.exists():
+                rel = str(cand.resolve().relative_to(rootr))
+                break
+        except ValueError:
+            continue
+    if rel is None:
         rel = "OUTSIDE:" + v.file_path
     msg = re.sub(r"[^\s,:()]*?((?:app/|top_level)[\w.]+)", r"\1", v.message)     # paths quoted in messages, whatever their spelling
     return (v.rule_id, rel, v.line, msg[:80])
@@ -60,6 +68,9 @@ def _build(base, parents, name="proj"):
     (d / "app" / "half_skipped.py").write_text(triggers.T["magic.py"][3].replace("3975", "5507").replace("price", "rate") + "\n\n" + triggers.T["nest.py"][3])
     with open(d / ".thailint.yaml", "a") as fh:
         fh.write("magic-numbers:\n  ignore:\n    - app/half_skipped.py\n")
+        # placement rules are written relative to the project as well
+        fh.write("file-placement:\n  directories:\n    app:\n      deny:\n        - pattern: '.*\\.rs$'\n          reason: no rust sources in app\n"
+                 "  global_deny:\n    - pattern: '^top_.*\\.py$'\n      reason: no top-level modules\n")
     return d
 
 
